@@ -78,7 +78,7 @@ def prep(scens):
 
 
 def tlc_trace(recs, tag, timeout=600):
-    path = os.path.join(vlib.workdir("C20"), "trace-%s-%d-%d.ndjson" % (tag, os.getpid(), threading.get_ident() % 100000))
+    path = os.path.join(vlib.workdir("C20"), "trace-%s-%d-%d.ndjson" % (re.sub(r"[^A-Za-z0-9]+", "-", tag), os.getpid(), threading.get_ident() % 100000))
     vlib.write_lines(path, recs)
     try:
         r = run_tlc("Trace_Shutdown.tla", "Trace_Shutdown.cfg", D, workers=1, env={"TRACE": path}, deque=True,
